@@ -14,7 +14,7 @@ THEOREMS = ['DG.rlist_append_inv', 'DG.rlist_setItem_inv', 'DG.rlist_delItem_inv
             'DG.closure_spec', 'DG.reduction_spec', 'DG.closure_refines', 'DG.reduction_refines', 'DG.reduction_fewest',
             'DG.closure_most', 'DG.cloVisit_spec', 'DG.redVisit_spec', 'DG.le_reads', 'DG.eq_reads', 'DG.eqv_spec',
             'DG.grafts_preserve_order', 'DG.flatten_round_eq', 'DG.dependencies_rec_reads', 'DG.depsLoop_spec',
-            'DG.depends_rec_reads', 'DG.dependsLoop_total', 'DG.flatten_all_plain', 'DG.flatten_one_level_returns', 'DG.flatten_returns']
+            'DG.depends_rec_reads', 'DG.dependsLoop_total', 'DG.dependencies_rec_returns', 'DG.depsLoop_total', 'DG.flatten_all_plain', 'DG.flatten_one_level_returns', 'DG.flatten_returns']
 BUDGET = {'quick': 1200, 'thorough': 30000}
 TIME_LIMIT = {'quick': 50, 'thorough': 700}
 RULE = ('edit histories of 1-30 operations over up to 6 graph variables (SSA: copy/invert/+ create a new variable) '
